@@ -104,6 +104,17 @@ pub fn run_sessions(cfg: &ScenCfg, out: &mut RunOut) {
                         out.probe("evict_while_evictee_midframe");
                     }
                 }
+                // optionally the oldest session is stuck writing a reply: its peer has stopped reading
+                if let Some(o) = live.first() {
+                    if cfg.faults && live.len() >= limit && chance(1, 3) {
+                        let c = conns.iter().find(|c| c.id == *o).unwrap();
+                        c.peer.set_capacity(4);
+                        c.peer.write(&mbap_frame(0x7777, 1, &[3, 0, 0, 0, 100]));
+                        kernel::settle();
+                        kernel::count("fault_peer_stall");
+                        out.probe("evict_while_evictee_blocked_writing");
+                    }
+                }
                 let p = net::connect_from(addr, from);
                 kernel::settle();
                 match p {
@@ -248,6 +259,16 @@ pub fn run_sessions(cfg: &ScenCfg, out: &mut RunOut) {
             }
             _ => {
                 // shutdown or drop the handle
+                if cfg.faults && rig.is_some() && !live.is_empty() && chance(1, 2) {
+                    // one session is stuck writing a reply meanwhile
+                    let id = live[choose(live.len() as u32) as usize];
+                    let c = conns.iter().find(|c| c.id == id).unwrap();
+                    c.peer.set_capacity(4);
+                    c.peer.write(&mbap_frame(0x7778, 1, &[3, 0, 0, 0, 100]));
+                    kernel::settle();
+                    kernel::count("fault_peer_stall");
+                    out.probe("shutdown_while_session_blocked_writing");
+                }
                 if let Some(r) = rig.take() {
                     if chance(1, 2) {
                         {
